@@ -51,6 +51,8 @@ pub fn generate(prop: &str, seed: u64, idx: u64, tier: Tier) -> Plan {
         p.knobs.insert(k, v);
     }
     p.knobs.insert("point".into(), point as i64);
+    // signaling is not instantaneous: the offer and the answer take time, and so does the answering application
+    p.knobs.insert("sig_delay_ms".into(), *r.pick(&[0i64, 0, 1, 5, 30, 200]));
     p.latency_us = [r.range(200, 40_000), r.range(200, 40_000)];
     p.sched = Sched { rng_seed: r.next(), defer_pct: if r.chance(60) { 0 } else { r.range(1, 30) as u8 } };
     p.heal_at_ms = 0;
@@ -74,7 +76,7 @@ pub async fn run(ctx: &Ctx) {
     ctx.net.install_binder();
     let mut a = Peer::new(ctx, &k, 0);
     let mut b = Peer::new(ctx, &k, 1);
-    let fail = |what: String| ctx.violate("C10.connect", format!("{what} [mode={} mix={} bundle={} mux={} lite={} udpmux={} latch={} compat={} offerer={}]", k.mode, k.mix, k.bundle, k.mux, k.lite, k.udpmux, k.latch, k.compat, k.offerer));
+    let fail = |what: String| ctx.violate("C10.connect", format!("{what} [mode={} mix={} bundle={} mux={} lite={} udpmux={} latch={} compat={} offerer={} sig_delay_ms={}]", k.mode, k.mix, k.bundle, k.mux, k.lite, k.udpmux, k.latch, k.compat, k.offerer, ctx.plan.knob("sig_delay_ms", 0)));
     {
         let (off, ans) = if k.offerer == 0 { (&mut a, &mut b) } else { (&mut b, &mut a) };
         if k.has_dc() {
